@@ -63,7 +63,7 @@ def _eps(x):
     return max(1e-9, abs(x) * 1e-7)
 
 
-def make_probes(decl, schema, cat=None):
+def make_probes(decl, schema, cat=None, pristine=None):
     """decl: {module: {'class':..., 'params': {name: P}}} from the after_read hook."""
     probes = []
     seen = set()
@@ -83,6 +83,17 @@ def make_probes(decl, schema, cat=None):
                         src = 'live(differs-from-schema)'
                 dflt = p.DefaultValue
                 dom = {'kind': 'float', 'min': lo, 'max': hi, 'default': dflt, 'source': src, 'module': d['class']}
+                try:
+                    # a working value outside the documented range is a "not provided" sentinel (-1, 0 ...): the bounds of such a
+                    # parameter sit next to the sentinel, where module code is most likely to mistake one for the other
+                    w0 = float(p.value) if not isinstance(p.value, (list, tuple)) else None
+                    # the value the module holds before any input is read (the family base may supply this parameter)
+                    pv = (pristine or {}).get(name, w0)
+                    pv = float(pv) if pv is not None and not isinstance(pv, (list, tuple)) else None
+                    dom['sentinel'] = any(x is not None and not (lo <= x <= hi) for x in (w0, pv))
+                    dom['working'] = w0
+                except (TypeError, ValueError):
+                    dom['sentinel'] = False
                 if abs(lo) < UNBOUNDED:
                     probes.append((name, lo - _eps(lo), 'below-min', dom))
                     probes.append((name, lo, 'min', dom))
@@ -401,6 +412,91 @@ def hip_probe_job(probes, family='hip-ra-x'):
     return {'mon': mon.dump(), 'samples': samples, 'n': len(probes), 'counts': dict(C.COUNTS)}
 
 
+def _staged_client_run(text, name, valtext, tag):
+    """One full run through the real client; returns (error text or None, {stage: value of the parameter object})."""
+    import contextlib
+    import io
+    import logging
+    from pathlib import Path
+    from .. import observe
+    from geophires_x_client import GeophiresXClient, GeophiresInputParameters
+    wd = runner.workdir()
+    path = Path(wd, f'api_{tag}.txt')
+    path.write_text(text + f'\n{name}, {valtext}\n', encoding='utf-8')
+    params = GeophiresInputParameters(from_file_path=path)
+    outp = Path(params.get_output_file_path())
+    staged = {}
+
+    def cb(stage, model):
+        if stage in ('after_read', 'after_calculate'):
+            for modname in observe.MODULES:
+                d = getattr(getattr(model, modname, None), 'ParameterDict', None)
+                if isinstance(d, dict) and name in d:
+                    staged[stage] = getattr(d[name].value, 'int_value', d[name].value)
+                    staged[stage + ':provided'] = bool(getattr(d[name], 'Provided', False))
+    observe.reset(want_snap=False, want_read=False, callbacks=(cb,))
+    logging.disable(logging.CRITICAL)
+    err = None
+    try:
+        with contextlib.redirect_stdout(io.StringIO()), contextlib.redirect_stderr(io.StringIO()):
+            GeophiresXClient(enable_caching=False).get_geophires_result(params)
+    except RuntimeError as ex:
+        err = str(ex)
+    except BaseException as ex:  # noqa
+        err = 'UNWRAPPED ' + type(ex).__name__ + ': ' + str(ex)
+    finally:
+        logging.disable(logging.NOTSET)
+    for pth in (path, outp, Path(str(outp)[:-4] + '.json')):
+        with contextlib.suppress(OSError):
+            pth.unlink()
+    return err, staged
+
+
+def _through_calculation(mon, text, probe, family, wit):
+    """An accepted bound is *used*: the value standing in the parameter when reading ends is still there when the calculation
+    ends, unless module code treats every value of the parameter that way in this configuration (interior neighbour)."""
+    name, val, kind, dom = probe['name'], probe['value'], probe['kind'], probe['dom']
+    if dom.get('text') or kind not in ('min', 'max'):
+        return
+    tag = abs(hash((family, name, kind, 'calc'))) % 10**9
+    err, st = _staged_client_run(text, name, _fmt(val), f'{tag}a')
+    if err is not None or 'after_read' not in st or 'after_calculate' not in st:
+        mon.note('through-calculation-not-observed')
+        return
+    try:
+        r0, c0 = float(st['after_read']), float(st['after_calculate'])
+    except (TypeError, ValueError):
+        return
+    if c0 == r0:
+        mon.ok('api-bound-stands-through-calculation')
+        return
+    if dom['kind'] == 'int':
+        inner = val + 1 if kind == 'min' else val - 1
+    else:
+        inner = val + 1e-3 * (dom['max'] - dom['min']) if kind == 'min' else val - 1e-3 * (dom['max'] - dom['min'])
+    err2, st2 = _staged_client_run(text, name, _fmt(inner), f'{tag}b')
+    if err2 is not None or 'after_read' not in st2 or 'after_calculate' not in st2:
+        mon.note('through-calculation-neighbour-not-observed')
+        return
+    try:
+        r1, c1 = float(st2['after_read']), float(st2['after_calculate'])
+    except (TypeError, ValueError):
+        return
+    if c1 == r1:
+        # the interior neighbour is left alone, the documented bound is replaced while calculating
+        # signature of the reader's "nothing to change" shortcut: the bound equals the value the module already holds, so the
+        # reader returns before marking the parameter as provided and the calculation then treats it as absent
+        skipped = dom.get('working') is not None and float(dom['working']) == float(val) and not st.get('after_read:provided') \
+            and st2.get('after_read:provided')
+        mech = ('C07/bound-equal-to-the-working-value-not-marked-provided-then-replaced-during-the-calculation:' + name) if skipped \
+            else 'C07/accepted-bound-replaced-during-the-calculation'
+        mon.bad('api-bound-stands-through-calculation', mechanism=mech, at_end_of_read=r0, at_end_of_calculation=c0,
+                interior_probe=inner, interior_at_end_of_calculation=c1, marked_provided=st.get('after_read:provided'), **wit)
+    else:
+        mon.ok('api-bound-stands-through-calculation')
+        mon.note(f'calculation-rewrites-every-value-of:{name}')
+
+
 def api_job(text, probe, family):
     """One probe through the real client (full run): API-level rejection / acceptance."""
     import tempfile
@@ -467,6 +563,7 @@ def api_job(text, probe, family):
                     else:
                         mon.check('api-bound-used', ok, mechanism='C07/accepted-bound-not-the-value-in-the-model',
                                   in_model=got, units=found.CurrentUnits, **wit)
+            _through_calculation(mon, text, probe, family, wit)
     else:
         if err is None:
             mon.bad('api-out-of-range-rejected', mechanism='C07/out-of-range-value-accepted:api', **wit)
@@ -500,7 +597,17 @@ def run(ctx):
             ctx.reject(res.exc_type, res.exc_msg)
             ctx.mon.note('family-base-not-readable:' + fam)
             continue
-        probes = make_probes(res.read, schema, cat)
+        pristine = {}
+        if fam in API_FAMILIES:
+            # the same module classes with nothing but the structural options supplied: the values the modules start from
+            keep = ('End-Use Option', 'Power Plant Type', 'Reservoir Model', 'Economic Model')
+            mini = '\n'.join(ln for ln in text.split('\n') if ln.split(',')[0].strip() in keep) + '\n'
+            r0 = runner.run_text(mini, want_snap=False, want_read=True, stop_after_read=True)
+            if r0.read:
+                for d in r0.read.values():
+                    for nm, pp in d['params'].items():
+                        pristine.setdefault(nm, getattr(pp.value, 'int_value', pp.value))
+        probes = make_probes(res.read, schema, cat, pristine)
         nprobes[fam] = len(probes)
         for i in range(0, len(probes), 40):
             jobs.append({'fn': 'gxv.props.c07:probe_job', 'args': {'text': text, 'probes': probes[i:i + 40], 'family': fam},
@@ -512,7 +619,9 @@ def run(ctx):
             ctx.rng.shuffle(rej)
             ctx.rng.shuffle(acc)
             take_r = rej[:max(8, len(rej) // (20 if ctx.quick else 4))]
-            take_a = acc[:ctx.pick(30, len(acc))]
+            sent = [p for p in acc if p['dom'].get('sentinel') and p['kind'] in ('min', 'max') and not p['dom'].get('text')]
+            rest = [p for p in acc if p not in sent]
+            take_a = sent + rest[:ctx.pick(30, len(rest))]
             for p in take_r + take_a:
                 api_jobs.append({'fn': 'gxv.props.c07:api_job', 'args': {'text': text, 'probe': p, 'family': fam}, 'timeout': 300})
     # the heat-in-place program (anchored in the property: src/hip_ra_x/hip_ra_x.py) is a family of its own
@@ -549,7 +658,7 @@ def run(ctx):
     ctx.exhaustive = True
     ctx.required.update({'reaches-reader': 1500, 'bound-accepted': 600, 'bound-used': 600, 'out-of-range-rejected': 600,
                          'error-names-parameter': 600, 'api-out-of-range-rejected': 20, 'api-no-report': 20,
-                         'api-bound-accepted': 20})
+                         'api-bound-accepted': 20, 'api-bound-stands-through-calculation': 40})
     ctx.rule = ('for each configuration family (shipped example bases: standard reservoir models 0-5, heat pump, chiller, '
                 'district heating, add-ons, S-DAC-GT, overpressure, multi-segment, SUTRA, AGS-Wanju, SBT; plus the HIP-RA-X program) every float and '
                 'integer parameter offered to the reader is probed at {far below min (negative), just below min, min, max, just above max, far above max, non-member '
